@@ -26,7 +26,7 @@ func opGen(kinds []string) *rapid.Generator[Op] {
 }
 
 func seqGen() *rapid.Generator[Case] {
-	og := opGen([]string{"register", "register", "register", "named", "named", "list", "render", "styles"})
+	og := opGen([]string{"register", "register", "register", "named", "named", "list", "render", "styles", "hold", "hold", "renderheld", "renderheld"})
 	return rapid.Custom(func(t *rapid.T) Case {
 		return Case{Kind: "seq", Prefix: rapid.SampledFrom(prefixes).Draw(t, "prefix"), Ops: rapid.SliceOfN(og, 1, 20).Draw(t, "ops")}
 	})
@@ -58,6 +58,15 @@ func unknownGen() *rapid.Generator[Case] {
 	return rapid.Custom(func(t *rapid.T) Case {
 		return Case{Kind: "unknown", Names: append([]gen.Str{""}, rapid.SliceOfN(nm, 1, 5).Draw(t, "names")...)}
 	})
+}
+
+// TestFresh runs alone in its own process (one case): the very first registry operation overwrites a built-in name.
+func TestFresh(t *testing.T) {
+	shard, _ := h.Shard()
+	c := Case{Kind: "fresh", G: shard, K: 7 + shard}
+	if v := prop.Eval(c); v != nil {
+		t.Fatalf("VIOLATION %s", ID)
+	}
 }
 
 func TestSeq(t *testing.T)     { prop.Rapid(t, seqGen()) }
